@@ -245,6 +245,28 @@ elif kind == 'subspace':
     Ps = [rng.rand(w['n'], k) for k in w['sub']]; Bs = [rng.rand(k, k) for k in w['sub']]
     D = sum(P @ B @ P.T for P, B in zip(Ps, Bs))
     test(O.SubspaceOperator([wrap(P, 'dense' if kd == 'dense' else 'sparse') for P, kd in zip(Ps, w['kinds'])], [wrap(B, kd) for B, kd in zip(Bs, w['kinds'])]), D, 'SubspaceOperator', kinds=('vector', 'column'))
+elif kind == 'tprod':
+    ops = []; Ms = []
+    for s_, k in zip(w['shapes'], w['kinds']):
+        if k == 'none': ops.append(None); Ms.append(np.eye(s_[1]))
+        else:
+            M = rng.rand(*s_); Ms.append(M); ops.append(wrap(M, k))
+    A = rng.rand(*(tuple(s_[1] for s_ in w['shapes']) + tuple(w['trailing'])))
+    ref = A
+    for ax, M in enumerate(Ms):
+        ref = np.moveaxis(np.tensordot(M, ref, axes=([1], [ax])), 0, ax)
+    try:
+        Y = np.asarray(tensor.apply_tprod(ops, A))
+        if Y.shape != ref.shape or not np.allclose(Y, ref): bad.append('apply_tprod: wrong result')
+    except Exception as e:
+        bad.append('apply_tprod: %s: %s' % (type(e).__name__, str(e)[:60]))
+    for k_, op in enumerate(ops):
+        if op is None: continue
+        try:
+            Yk = np.asarray(tensor.modek_tprod(op, k_, A)); refk = np.moveaxis(np.tensordot(Ms[k_], A, axes=([1], [k_])), 0, k_)
+            if Yk.shape != refk.shape or not np.allclose(Yk, refk): bad.append('modek_tprod: wrong result')
+        except Exception as e:
+            bad.append('modek_tprod: %s' % type(e).__name__)
 print(json.dumps({'reproduced': bool(bad), 'bad': bad[:8]}))
 '''
 
@@ -282,7 +304,10 @@ def main():
     for (n, sub, kinds) in [(3, [2], ['dense']), (3, [1, 2], ['dense', 'sparse']), (3, [2, 2], ['linop', 'dense'])]:
         jobs.append(('subspace', subspace_harness(on, n, sub, kinds), {'kind': 'subspace', 'n': n, 'sub': sub, 'kinds': kinds}))
     tp = [([(2, 2), (2, 3)], ['dense', 'dense'], ()), ([(2, 2), (3, 2)], ['sparse', 'none'], ()), ([(2, 3), (2, 2)], ['dense', 'linop'], (2,)),
-          ([(2, 2), (1, 2), (2, 1)], ['none', 'dense', 'sparse'], ()), ([(3, 2)], ['sparse'], (2, 1))]
+          ([(2, 2), (1, 2), (2, 1)], ['none', 'dense', 'sparse'], ()), ([(3, 2)], ['sparse'], (2, 1)),
+          # identity placeholders TOGETHER with trailing axes (vector-valued coefficients / several right-hand sides), distinct sizes everywhere
+          ([(2, 2), (3, 4)], ['none', 'dense'], (5,)), ([(3, 2), (4, 4)], ['sparse', 'none'], (2,)), ([(2, 2), (3, 3), (2, 4)], ['none', 'none', 'dense'], (3, 2)),
+          ([(3, 3)], ['none'], (2,))]
     for shapes, kinds, tr in tp:
         jobs.append(('tprod', tprod_harness(tn, shapes, kinds, tr), {'kind': 'tprod', 'shapes': [list(s) for s in shapes], 'kinds': kinds, 'trailing': list(tr)}))
     for grp, h, w in jobs:
@@ -292,7 +317,8 @@ def main():
         if st.cex:
             names = sorted({cx['name'] for cx in st.cex})
             if grp == 'tprod':
-                run.report('tensor:' + names[0][:40], '%s fails for %s' % (names, w), w, True)
+                r = realbuild.run_real(REPLAY, w, only=[])
+                run.report('tensor:' + names[0][:40], '%s fails for %s; real run: %s' % (names, w, r['bad']), w, r['reproduced'])
             else:
                 r = realbuild.run_real(REPLAY, w, only=[])
                 # key: which class / which route (T, H, plain)
@@ -319,7 +345,7 @@ def main():
 
 def replay_file(path):
     w = json.load(open(path))['witness']
-    r = realbuild.run_real(REPLAY, w, only=[]) if w.get('kind') != 'tprod' else {'reproduced': True}
+    r = realbuild.run_real(REPLAY, w, only=[])
     print(json.dumps(r)); print('REPRODUCED' if r['reproduced'] else 'NOT-REPRODUCED')
     sys.exit(1 if r['reproduced'] else 0)
 
